@@ -489,6 +489,7 @@ void HttpRequest::read()
 	}
 
 	_path = Url::decode(_res.substring(0, pathend));
+	_path.fix(); // an encoded NUL (%00) ends the path; it must not hide what follows from the check below
 
 	if(_path.contains(".."))
 		_path = _path.replace("..", "");
